@@ -413,32 +413,25 @@ def g1_generic_payload(g, roles):
     done = set()
     for c in g.generic_attr():
         site = chunk_site(g, c)
-        reps = [x for x in c.payload if isinstance(x, em.Rep)]
-        if len(reps) != 1 or any(isinstance(x, (em.Alt, em.Unk)) for x in c.payload):
-            ctx.undecided("C04-G1", site, "geogram: payload loop of a user attribute chunk not recognised", "")
+        if any(isinstance(x, em.Unk) for x, _p in em.walk(c.payload)):
+            ctx.undecided("C04-G1", site, "geogram: payload of a user attribute chunk is written in a way the writer model does not read", "")
             continue
-        rep = reps[0]
-        key = id(rep.node)
+        key = tuple(id(x) for x in c.payload)
         if key in done:
             continue
         done.add(key)
-        it = cc.resolve(b, rep.iter, at=rep.node)
-        if not (isinstance(it, ast.Call) and au.call_tail(it) == "range" and len(it.args) == 1 and isinstance(rep.target, ast.Name)):
-            ctx.undecided("C04-G1", site, "geogram: the payload of a user attribute chunk does not run over range(size)", "")
-            continue
-        i = rep.target.id
         roles_c = getattr(c, "roles", roles)
         size_src = au.src(cc.resolve(b, roles_c["elemsize"][2].expr, at=roles_c["elemsize"][2].node))
+        anchor = roles_c["elemsize"][2].node
 
         def decide(T, n):
             def d(test):
-                t = cc.resolve(b, test, at=test if au.parent(test) is not None else rep.node, keep=(i,))
+                t = cc.resolve(b, test, at=test if au.parent(test) is not None else anchor)
 
                 def extra(x):
-                    xs = x
-                    if any(au.src(y) == size_src for y in au.walk(xs)):
-                        key_ = au.norm(next(y for y in au.walk(xs) if au.src(y) == size_src))
-                        return cc.eval_test(_TagSubst(key_).visit(cc.clean(xs)), {"__tag": n})
+                    if any(au.src(y) == size_src for y in au.walk(x)):
+                        key_ = au.norm(next(y for y in au.walk(x) if au.src(y) == size_src))
+                        return cc.eval_test(_TagSubst(key_).visit(cc.clean(x)), {"__tag": n})
                     return None
                 return eval_type_guard(t, T, extra)
             return d
@@ -446,13 +439,25 @@ def g1_generic_payload(g, roles):
         for T in ("Bool", "Int", "Float"):
             for n in (1, 2):
                 try:
-                    flat = select(rep.body, decide(T, n))
-                except LookupError as ex:
-                    ctx.undecided("C04-G1", site, "geogram: a condition inside the payload loop of user attributes is not about the "
+                    flat0 = select(c.payload, decide(T, n))
+                except LookupError:
+                    ctx.undecided("C04-G1", site, "geogram: a condition inside the payload of user attributes is not about the "
                                   "attribute type / arity", "")
                     ok_all = None
                     break
-                verdict, why = payload_case(g, flat, i, n, T, roles_c, rep)
+                reps = [x for x in flat0 if isinstance(x, em.Rep)]
+                if len(reps) != 1 or any(isinstance(x, em.Lf) for x in flat0):
+                    ctx.undecided("C04-G1", site, f"geogram: payload loop of a {T} attribute of arity {n} not recognised", "")
+                    ok_all = None
+                    break
+                rep = reps[0]
+                it = cc.resolve(b, rep.iter, at=rep.node)
+                if not (isinstance(it, ast.Call) and au.call_tail(it) == "range" and len(it.args) == 1 and isinstance(rep.target, ast.Name)):
+                    ctx.undecided("C04-G1", site, "geogram: the payload of a user attribute chunk does not run over range(size)", "")
+                    ok_all = None
+                    break
+                i = rep.target.id
+                verdict, why = payload_case(g, rep.body, i, n, T, roles_c, rep)
                 if verdict is None:
                     ctx.undecided("C04-G1", site, f"geogram: values written for a {T} attribute of arity {n} not recognised", why)
                     ok_all = None
@@ -642,11 +647,11 @@ def geogram_chunks(g, ptr_names):
         if match and match[0][4] and not is_attr_obj:
             want_kind = match[0][4][0]
             cl = [em.leaf_class(prov, lf) for lf in lvs]
-            if lvs and all(c_ is None for c_ in cl):
+            if lvs and any(c_ is None for c_ in cl):
                 ctx.undecided("C04-G1", psite, f"geogram: the values written in chunk {name} are not recognised as mesh elements", "")
             else:
                 good = bool(lvs) and all((c_ or (None, None))[:2] == ("elem", want_kind) for c_ in cl)
-                pos_ = [c_[3] for c_ in cl if c_]
+                pos_ = [c_[3] for c_ in cl if c_ and len(c_) > 3]
                 if good and pos_ and all(isinstance(p_, int) for p_ in pos_):
                     ctx.check(pos_ == list(range(len(pos_))), "C04-G1", psite,
                               f"geogram: the values of chunk {name} are components {pos_} of each element instead of {list(range(len(pos_)))}",
@@ -664,7 +669,8 @@ def geogram_chunks(g, ptr_names):
         if not is_attr_obj:
             ri = em.row_iteration(rep, prov, b)
             dense = (ri is not None and ri[1] in ("loop", "range")) or (isinstance(itr, ast.Call) and au.call_tail(itr) == "range") \
-                or prov.container_kind(it) is not None or any(_sizes_list(it, prov, k_) for k_ in ("faces", "cells"))
+                or prov.container_kind(it) is not None or any(_sizes_list(it, prov, k_) for k_ in ("faces", "cells")) \
+                or any(_accumulated_offsets(it, prov, k_) is not None for k_ in ("faces", "cells"))
             if dense:
                 ctx.ok("C04-G1", psite, f"geogram: payload of {name} runs over the elements")
             elif ri is not None:
@@ -831,6 +837,11 @@ def g1_attribute_loops(g, names_written):
         if bad is not None:
             ctx.undecided("C04-G1", site, f"geogram: condition under which the attributes of mesh.{fld} are exported not recognised", "")
             continue
+        if not handled_all and (cx.unknown or cx.problems or any(c2.tag is None for c2 in g.chunks)
+                                or any(c2.tag == "[ATTR]" and len(c2.lines) >= 3 and c2.lit(2) is None and c2 not in g.generic_attr() for c2 in g.chunks)):
+            # part of what the exporter writes is not read: the chunk of the skipped attribute may be there
+            ctx.undecided("C04-G1", site, f"geogram: whether the attributes of mesh.{fld} skipped by name are written as their own chunk cannot be told", "")
+            continue
         ctx.check(bad is None and handled_all and only is None, "C04-G1", site,
                   f"geogram: not every attribute of mesh.{fld} "
                   f"is exported (only the ones written as their own chunk may be skipped)",
@@ -912,18 +923,43 @@ def arity_tables(g):
             continue
         gen = row.generators[0]
         it = gen.iter
-        if not (isinstance(it, ast.Call) and au.call_tail(it) == "range" and len(it.args) == 1 and isinstance(gen.target, ast.Name)):
+        if not (isinstance(it, ast.Call) and au.call_tail(it) == "range" and len(it.args) in (1, 2) and isinstance(gen.target, ast.Name)):
             continue
-        n_e = cc.resolve(b, it.args[0], at=rb.node, keep=(i,))
+        lo_e = None
+        if len(it.args) == 2:
+            # range(ptr, ptr + size): the corners of the element directly
+            lo_e = cc.resolve(b, it.args[0], at=rb.node, keep=(i,))
+            hi_e = cc.resolve(b, it.args[1], at=rb.node, keep=(i,))
+            if not (isinstance(hi_e, ast.BinOp) and isinstance(hi_e.op, ast.Add)):
+                continue
+            if au.src(hi_e.left) == au.src(lo_e):
+                n_e = hi_e.right
+            elif au.src(hi_e.right) == au.src(lo_e):
+                n_e = hi_e.left
+            else:
+                continue
+        else:
+            n_e = cc.resolve(b, it.args[0], at=rb.node, keep=(i,))
         if not (isinstance(n_e, ast.Subscript) and isinstance(n_e.value, ast.Name) and au.src(n_e.slice) == i):
             continue
-        T = n_e.value.id
+        def alias(nm):
+            # `a, b = (p, s)` / `a = p`: the table is the local the values were built in
+            for _ in range(4):
+                d = b.reaching(nm, rb.node)
+                if isinstance(d, ast.Name):
+                    nm = d.id
+                else:
+                    break
+            return nm
+        T = alias(n_e.value.id)
         P = None
         elt = cc.resolve(b, row.elt, at=rb.node, keep=(i, gen.target.id))
+        if lo_e is not None:
+            elt = ast.Subscript(value=ast.Name(id="_", ctx=ast.Load()), slice=lo_e, ctx=ast.Load())
         if isinstance(elt, ast.Subscript):
             for x in au.walk(elt.slice):
                 if isinstance(x, ast.Subscript) and isinstance(x.value, ast.Name) and au.src(x.slice) == i:
-                    P = x.value.id
+                    P = alias(x.value.id)
         fills, assigns = list_fills(rfn, b, T)
         names = []
         for f in fills:
@@ -1162,7 +1198,33 @@ def _sizes_list(e, prov, kind):
         and isinstance(e.elt.args[0], ast.Name) and e.elt.args[0].id == e.generators[0].target.id
 
 
+def _accumulated_offsets(e, prov, kind):
+    """True when `e` is `accumulate(<sizes>[:-1], initial=0)` (the index of the first corner of every element), False when it is
+    another accumulation of the sizes, None when it is something else"""
+    if isinstance(e, ast.Name) and prov.b is not None and au.parent(e) is not None:
+        e = prov.b.reaching(e.id, e)
+    if isinstance(e, ast.Call) and isinstance(e.func, ast.Name) and e.func.id in ("list", "tuple") and len(e.args) == 1:
+        e = e.args[0]
+    if not (isinstance(e, ast.Call) and au.call_tail(e) == "accumulate" and e.args):
+        return None
+    a0 = e.args[0]
+    init = next((k.value for k in e.keywords if k.arg == "initial"), None)
+    if isinstance(a0, ast.Subscript) and isinstance(a0.slice, ast.Slice) and a0.slice.lower is None and a0.slice.step is None \
+            and au.const(a0.slice.upper) == -1 and _sizes_list(a0.value, prov, kind):
+        return isinstance(init, ast.Constant) and init.value == 0 and not isinstance(init.value, bool) and len(e.args) == 1
+    if _sizes_list(a0, prov, kind):
+        return False
+    return None
+
+
 def _ptr_payload(rep, b, prov, kind):
+    acc = _accumulated_offsets(cc.strip_enumerate(rep.iter)[0], prov, kind)
+    if acc is not None:
+        leaves = em.leaves_of(rep.body)
+        if len(leaves) == 1 and isinstance(leaves[0].expr, ast.Name) and isinstance(rep.target, ast.Name) and leaves[0].expr.id == rep.target.id \
+                and not any(isinstance(x, (em.Alt, em.Rep)) for x in rep.body) and not rep.ifs:
+            return None if acc else "the offsets written are not the running sum of the sizes of the preceding elements starting at 0"
+        return ("?", "values written from the accumulated offsets not read")
     """None when the payload is `p = 0; for row in mesh.K: write(p); p += len(row)`; an explanation (str) when it recognisably is
     not; ('?', why) when the construct is not read"""
     lp = rep.node
